@@ -140,7 +140,7 @@ fn rawf(ty: u8, flags: u8, stream: u32, payload: Vec<u8>) -> PStep {
 const STATES: &[&str] = &["none", "open", "half-closed-remote", "closed", "peer-reset"];
 
 /// Returns the catalogue size so generators / evidence can report coverage.
-pub const N_ITEMS_SERVER: usize = 78;
+pub const N_ITEMS_SERVER: usize = 80;
 
 #[allow(clippy::too_many_lines)]
 fn server_item(k: usize, t: &mut Tape, target: u32, state: &str, next_id: u32, cfg: &Cfg) -> Option<(Vec<PStep>, Inject)> {
@@ -281,6 +281,44 @@ fn server_item(k: usize, t: &mut Tape, target: u32, state: &str, next_id: u32, c
             }
             (v, mk("stream-over-concurrency-limit", Class::Stream, last, "§5.1.2 exceeding the advertised limit is a stream error PROTOCOL_ERROR or REFUSED_STREAM", vec![last]))
         }
+        78 | 79 => {
+            // a stream refused for exceeding the limit is a stream the endpoint reset: what the peer had in flight
+            // for it must not hurt the connection, and its identifier stays used
+            let lim = cfg.max_concurrent?;
+            let mut v = Vec::new();
+            let mut ids = Vec::new();
+            for i in 0..=lim {
+                let id = idle + 2 * i;
+                v.push(hdr(id, "POST", false));
+                ids.push(id);
+            }
+            let last = *ids.last().unwrap();
+            if k == 78 {
+                let what = t.below(4);
+                if what == 0 || what == 3 {
+                    v.push(fr(Frame::Data { stream: last, end_stream: false, pad: None, data: vec![1, 2, 3] }));
+                }
+                if what == 1 || what == 3 {
+                    v.push(fr(Frame::WinUp { stream: last, inc: 10, inc_r: false }));
+                }
+                if what == 2 || what == 3 {
+                    v.push(fr(Frame::Rst { stream: last, code: 8 }));
+                }
+            }
+            v.push(PStep::Barrier);
+            for id in &ids[..ids.len() - 1] {
+                v.push(fr(Frame::Data { stream: *id, end_stream: true, pad: None, data: vec![] }));
+                v.push(PStep::WaitEnd(*id));
+            }
+            if k == 78 {
+                (v, mk("in-flight-frames-on-refused-stream", Class::Legal, last, "§5.4.2 / §6.4 after sending RST_STREAM an endpoint MUST be prepared to receive frames the peer sent before it arrived", vec![last]))
+            } else {
+                // a slot is free again: the peer opens the refused identifier a second time
+                v.push(PStep::Barrier);
+                v.push(hdr(last, "GET", true));
+                (v, mk("refused-stream-id-opened-again", Class::Either, 0, "§5.1.1 stream identifiers cannot be reused: a second HEADERS for a refused stream never starts a request", vec![last]))
+            }
+        }
         77 => (vec![fr(Frame::Settings { ack: false, params: vec![(3, 0), (4, 0)] }), fr(Frame::Settings { ack: false, params: vec![(3, 100), (4, 65535)] })], mk("settings-zero-limits-then-restore", Class::Legal, 0, "§6.5.2 zero is a valid value for MAX_CONCURRENT_STREAMS and INITIAL_WINDOW_SIZE", vec![])),
         _ => return None,
     })
@@ -298,7 +336,8 @@ pub fn gen_catalogue_server(tapes: &[Vec<u32>]) -> RawCase {
     // the item is chosen first: the concurrency item needs a small limit, every other item must not be
     // disturbed by one (the probe would be refused while earlier streams are still being answered)
     let k_pre = t.below(N_ITEMS_SERVER);
-    if k_pre == 76 {
+    let limit_item = matches!(k_pre, 76 | 78 | 79);
+    if limit_item {
         cfg.max_concurrent = Some(*t.pick(&[1u32, 2, 5]));
     } else if t.chance(1, 3) {
         cfg.max_concurrent = Some(100);
@@ -326,7 +365,11 @@ pub fn gen_catalogue_server(tapes: &[Vec<u32>]) -> RawCase {
     }
     // the target stream in a chosen state
     // (the concurrency item counts slots itself: no stream may be left open before it)
-    let state = if k_pre == 76 { *t.pick(&["none", "closed"]) } else { *t.pick(STATES) };
+    let state = if limit_item { *t.pick(&["none", "closed"]) } else { *t.pick(STATES) };
+    // variant: the injection arrives after the endpoint completed a graceful shutdown handshake (both GOAWAYs
+    // sent) while the target stream keeps the connection open; only connection errors are judged then
+    let draining = state == "open" && k_pre != 44 && t.chance(1, 4);
+    let mut ops: Vec<ConnOp> = Vec::new();
     let mut target = 0u32;
     match state {
         "open" => {
@@ -342,6 +385,12 @@ pub fn gen_catalogue_server(tapes: &[Vec<u32>]) -> RawCase {
             reqs.push(r);
             script.push(hdr(target, "POST", false));
             script.push(PStep::Barrier);
+            if draining {
+                ops.push(ConnOp { side: Side::Server, after_events: 2 + t.below(3), cmd: ConnCmd::GracefulShutdown, gap: 0 });
+                script.push(PStep::Yield(60));
+                script.push(PStep::Barrier);
+                script.push(PStep::Barrier);
+            }
         }
         "half-closed-remote" => {
             target = next_id;
@@ -375,14 +424,23 @@ pub fn gen_catalogue_server(tapes: &[Vec<u32>]) -> RawCase {
         let k = if round == 0 {
             k_pre
         } else {
-            let k = t.below(N_ITEMS_SERVER - 2);
+            let k = t.below(76);
             if k == 44 {
                 45
             } else {
                 k
             }
         };
-        if let Some((steps, inj)) = server_item(k, &mut t, target, state, next_id, &cfg) {
+        if let Some((steps, mut inj)) = server_item(k, &mut t, target, state, next_id, &cfg) {
+            if draining {
+                // (frames for streams above the announced last-stream-id may be discarded after GOAWAY, §6.8: only
+                // violations on stream 0, on the framing layer or on the target stream are judged)
+                let judged = matches!(k, 0..=15 | 17 | 19 | 23 | 35..=41 | 53);
+                if inj.class != Class::Conn || !judged {
+                    continue;
+                }
+                inj.state = "open+graceful-shutdown-done".into();
+            }
             script.push(PStep::Mark("inject".into()));
             script.extend(steps);
             inject = Some(inj);
@@ -403,7 +461,8 @@ pub fn gen_catalogue_server(tapes: &[Vec<u32>]) -> RawCase {
         script.push(PStep::Yield(30));
     }
     let spec = RawSpec { peer_settings: if t.bool() { vec![] } else { vec![(3, 100), (4, 65535)] }, script, grant: Grant::Eager, close_at_end: true };
-    let base = base_case(&mut t, tapes, cfg, reqs);
+    let mut base = base_case(&mut t, tapes, cfg, reqs);
+    base.ops = ops;
     RawCase { h2_side: Side::Server, base, spec, inject, probe_stream: probe, e_out_cap: None }
 }
 
@@ -577,7 +636,9 @@ pub fn check_c09(case: &RawCase, rr: &RawRun, an: &Analysed, out: &mut Outcome) 
                     format!("{} in state {}: the RFC permits this, yet {} answered with GOAWAY({:?}) — {}", inj.item, inj.state, role, code, inj.basis),
                 );
             } else {
-                let bad_rst: Vec<(u32, u32)> = after.iter().filter_map(|f| if let Ok(Frame::Rst { stream, code }) = &f.frame { if *code != 0 { Some((*stream, *code)) } else { None } } else { None }).collect();
+                // (a Legal item that names a stream tolerates resets of that very stream: it is the stream the endpoint
+                // itself refused or reset; the demand is that the connection and the other streams go on)
+                let bad_rst: Vec<(u32, u32)> = after.iter().filter_map(|f| if let Ok(Frame::Rst { stream, code }) = &f.frame { if *code != 0 && !(inj.stream != 0 && *stream == inj.stream) { Some((*stream, *code)) } else { None } } else { None }).collect();
                 if !bad_rst.is_empty() {
                     out.fail(prop, "tolerance/rst", sig("legal-traffic-resets-stream"), format!("{} in state {}: permitted by the RFC, yet RST_STREAM {:?} followed — {}", inj.item, inj.state, bad_rst, inj.basis));
                 } else if !probe_answered && rr.obs.script_done && rr.run.panic.is_none() {
